@@ -360,16 +360,16 @@ type vPuppet struct {
 	ctx    context.Context
 	cancel context.CancelFunc
 
-	mu      sync.Mutex
-	recv    []vWire
-	in      map[peer.ID][]network.Stream // streams opened by nodes towards us
-	out     map[peer.ID]network.Stream   // our outbound stream per node
-	stalled bool
-	unstall chan struct{}
-	onRPC   func(from peer.ID, rpc *pb.RPC)
-	inOpen  int
-	inEnded int
-	refuse  bool
+	mu          sync.Mutex
+	recv        []vWire
+	in          map[peer.ID][]network.Stream // streams opened by nodes towards us
+	out         map[peer.ID]network.Stream   // our outbound stream per node
+	stalled     bool
+	unstall     chan struct{}
+	onRPC       func(from peer.ID, rpc *pb.RPC)
+	inOpen      int
+	inEnded     int
+	refuse      bool
 	emptyFrames int
 }
 
